@@ -49,7 +49,7 @@ class WApp:
             w = self.w
             w.get_welcome().addCallbacks(lambda v: self._ev("welcome", v), lambda f: self._err("welcome", f))
             w.get_code().addCallbacks(lambda v: self._ev("code", v), lambda f: self._err("code", f))
-            w.get_unverified_key().addCallbacks(lambda v: self._ev("key", v), lambda f: self._err("key", f))
+            w.get_unverified_key().addCallbacks(lambda v: (self._derive_in_key_callback(), self._ev("key", v))[1], lambda f: self._err("key", f))
             w.get_verifier().addCallbacks(lambda v: self._ev("verifier", v), lambda f: self._err("verifier", f))
             w.get_versions().addCallbacks(lambda v: self._ev("versions", v), lambda f: self._err("versions", f))
             if eager_msgs:
@@ -131,7 +131,16 @@ class WApp:
         self._ev("code", code)
 
     def wormhole_got_unverified_key(self, key):
+        self._derive_in_key_callback()
         self._ev("key", key)
+
+    def _derive_in_key_callback(self):
+        """an application that derives a sub-key as soon as it is told that there is a key"""
+        if getattr(self, "derive_on_key", None):
+            try:
+                self.derived_on_key = ("ok", self.w.derive_key(self.derive_on_key, 32))
+            except BaseException as e:
+                self.derived_on_key = ("raised", type(e).__name__)
 
     def wormhole_got_verifier(self, verifier):
         self._ev("verifier", verifier)
